@@ -103,6 +103,8 @@ pub struct PipeInner {
     writer_waker: Option<Waker>,
     /// virtual time (us) at which the reader was first told about EOF / error
     pub told_at_us: Option<u64>,
+    /// set `told_at_us` when the reader has consumed this many bytes (e.g. the end of an Alert frame)
+    pub mark_read_at: Option<u64>,
 }
 
 pub type Shared = Arc<Mutex<PipeInner>>;
@@ -180,6 +182,10 @@ impl PipeCtl {
             p.wake_reader();
         })
     }
+    /// from now on at most `extra` more bytes may be in flight (a peer that stops reading)
+    pub fn clamp_capacity(&self, extra: usize) {
+        self.with(|p| p.cfg.capacity = p.buffered + extra)
+    }
     pub fn total_written(&self) -> u64 {
         self.with(|p| p.total_written)
     }
@@ -242,6 +248,7 @@ pub fn pipe(cfg: PipeCfg) -> (PipeWriter, PipeReader, PipeCtl) {
         reader_waker: None,
         writer_waker: None,
         told_at_us: None,
+        mark_read_at: None,
     };
     let sh = Arc::new(Mutex::new(inner));
     (PipeWriter { sh: sh.clone() }, PipeReader { sh: sh.clone(), sleep: None }, PipeCtl(sh))
@@ -395,8 +402,13 @@ impl AsyncRead for PipeReader {
         p.total_read += want as u64;
         let tr = p.total_read;
         p.wake_writer();
+        let mark = matches!(p.mark_read_at, Some(m) if tr >= m) && p.told_at_us.is_none();
         drop(p);
         world::log("pipe.read", id, tr);
+        if mark {
+            let now = world::now_us();
+            sh.lock().unwrap().told_at_us = Some(now);
+        }
         Poll::Ready(Ok(()))
     }
 }
